@@ -121,3 +121,77 @@ func abs(i int) int {
 	}
 	return i
 }
+
+// native meaning of the glue assertions: exact comparison with math/big
+func vLitRat(lit []byte) (*big.Rat, bool) {
+	neg := false
+	s := string(lit)
+	if len(s) > 0 && s[0] == '-' {
+		neg = true
+		s = s[1:]
+	}
+	r, ok := new(big.Rat).SetString(s)
+	if !ok {
+		return nil, false
+	}
+	return r, neg
+}
+
+func vAssertGlueValue(lit []byte, bits uint64, id string) {
+	x, neg := vLitRat(lit)
+	if x == nil || !vIsRoundedRat(x, neg, bits) {
+		vFailures = append(vFailures, id)
+	}
+}
+
+func vGlueOverflows(lit []byte) bool {
+	x, _ := vLitRat(lit)
+	if x == nil {
+		return false
+	}
+	thr := new(big.Rat).SetInt(new(big.Int).Lsh(big.NewInt(1), 1024))
+	half := new(big.Rat).SetInt(new(big.Int).Lsh(big.NewInt(1), 970))
+	thr.Sub(thr, half)
+	return x.Cmp(thr) >= 0
+}
+
+func vIsRoundedRat(x *big.Rat, neg bool, bits uint64) bool {
+	if (bits>>63 != 0) != neg {
+		return false
+	}
+	frac := bits & (1<<52 - 1)
+	if bits>>52&0x7FF == 0x7FF {
+		return false
+	}
+	val := func(b uint64) *big.Rat {
+		r := new(big.Rat)
+		r.SetFloat64(math.Float64frombits(b &^ (1 << 63)))
+		return r
+	}
+	abits := bits &^ (1 << 63)
+	got := val(abits)
+	d := new(big.Rat).Sub(x, got)
+	d.Abs(d)
+	if abits > 0 {
+		dl := new(big.Rat).Sub(x, val(abits-1))
+		dl.Abs(dl)
+		if c := dl.Cmp(d); c < 0 || (c == 0 && frac&1 == 1) {
+			return false
+		}
+	}
+	if abits+1 < 0x7FF0000000000000 {
+		dh := new(big.Rat).Sub(x, val(abits+1))
+		dh.Abs(dh)
+		if c := dh.Cmp(d); c < 0 || (c == 0 && frac&1 == 1) {
+			return false
+		}
+	} else {
+		thr := new(big.Rat).SetInt(new(big.Int).Lsh(big.NewInt(1), 1024))
+		half := new(big.Rat).SetInt(new(big.Int).Lsh(big.NewInt(1), 970))
+		thr.Sub(thr, half)
+		if x.Cmp(thr) >= 0 {
+			return false
+		}
+	}
+	return true
+}
